@@ -792,6 +792,13 @@ fn run_all(st: &mut Stats, mode: Mode) {
     nalgebra_routines::<Dual64>(&mut ctx, Dims::NONE, &mats, &eig);
     nalgebra_routines::<Dual2_64>(&mut ctx, Dims::NONE, &mats, &eig);
     nalgebra_routines::<DualSVec64<2>>(&mut ctx, Dims::n(2), &mats, &eig);
+    if mode == Mode::Quick {
+        // the types whose == compares every part (derived), on the class where the Jacobi iteration
+        // branches on a comparison: repaired by b3c74da, kept in the quick tier
+        let tiny: Vec<(Vec<Vec<f64>>, &'static str)> = eig.iter().filter(|(_, c)| *c == "tiny-offdiagonal").cloned().collect();
+        crate_routines::<Dual3_64>(&mut ctx, Dims::NONE, &[], &tiny);
+        crate_routines::<HyperDual64>(&mut ctx, Dims::NONE, &[], &tiny);
+    }
     if mode == Mode::Thorough {
         crate_routines::<Dual3_64>(&mut ctx, Dims::NONE, &mats, &eig);
         crate_routines::<HyperDual64>(&mut ctx, Dims::NONE, &mats, &eig);
